@@ -57,9 +57,10 @@ Fixpoint expected_log (C t : time) (pl : list (nat * stage)) : list (nat * time)
       end
   end.
 
-(* a stage that completes without exception or failed Deferred, logs no error, drops no failed Deferred *)
+(* a stage that completes without exception or failed Deferred, logs no error, drops no failed Deferred,
+   starts no poller (a poller always has its next instance scheduled) *)
 Definition clean_stage (st : stage) : bool :=
-  negb (stage_raises st) && negb (s_logerr st) && negb (s_drop st).
+  negb (stage_raises st) && negb (s_logerr st) && negb (s_drop st) && negb (s_poll st).
 
 Definition is_outcome (e : ev) : bool :=
   match e with AddSuccess | AddError | AddFailure | AddSkip => true | _ => false end.
